@@ -30,10 +30,14 @@ bin=".cache/vcheck-$mode-$key"
 if [ ! -x "$bin" ]; then
   # the overlay paths must be stable for the cache key of go's own build cache: copy to a keyed dir
   odir=".cache/instr-$key"
-  rm -rf "$odir.tmp$$"; mkdir -p "$odir.tmp$$"
-  cp -r "$work/instr/." "$odir.tmp$$/"
-  sed -i "s#$work/instr#$VERIF_ROOT/$odir#g" "$odir.tmp$$/overlay.json"
-  rm -rf "$odir"; mv "$odir.tmp$$" "$odir"
+  # (the key is the hash of the content: a directory that exists already is identical, and another build of the same
+  # tree may be reading it right now - never replace it)
+  if [ ! -f "$odir/overlay.json" ]; then
+    rm -rf "$odir.tmp$$"; mkdir -p "$odir.tmp$$"
+    cp -r "$work/instr/." "$odir.tmp$$/"
+    sed -i "s#$work/instr#$VERIF_ROOT/$odir#g" "$odir.tmp$$/overlay.json"
+    mv -T "$odir.tmp$$" "$odir" 2>/dev/null || rm -rf "$odir.tmp$$"
+  fi
   flags=(-tags verif -overlay "$VERIF_ROOT/$odir/overlay.json")
   [ "$mode" = race ] && flags+=(-race)
   if ! go build "${flags[@]}" -o "$bin.tmp$$" ./cmd/vcheck >&2; then
